@@ -270,27 +270,36 @@ TClass(tv, be, store) ==
     [] be = "bash"            -> [kind |-> "text", bits |-> 0, sgn |-> "na"]      \* shell variables are text
 
 \* precision in which a float element is seen: the environment holds doubles; a 32-bit declaration rounds to binary32
+\* a 128-bit declaration (long double, real(16)) may hold more digits than the environment has: it is compared after rounding
+\* to binary64 (as = 128)
 FloatAs(tv, be, store) ==
-  IF store = "object" /\ tv.width = 32 THEN 32 ELSE 64
+  IF store = "object" /\ tv.width = 32 THEN 32
+  ELSE IF store = "object" /\ tv.width = 128 /\ be \in {"c", "cpp", "fortran"} THEN 128
+  ELSE 64
 
-\* one element as the reader must see it
-ValueSeen(tv, i, be, store) ==
+\* one element as the reader must see it.  padlen: all elements of a Fortran character entity share one length, the
+\* reader sees the text padded with blanks to the length of the longest element (0 = no padding)
+ValueSeen(tv, i, be, store, padlen) ==
   CASE tv.ty = "bool"  -> IF be = "bash" THEN [t |-> "text", txt |-> IF BoolPool[i].b THEN "0" ELSE "-1"]   \* documented: 0 is true, -1 false
                           ELSE IF store = "macro" THEN [t |-> "int", txt |-> IF BoolPool[i].b THEN "1" ELSE "0"] \* C truth values
                           ELSE [t |-> "bool", txt |-> BoolPool[i].txt]
     [] tv.ty = "int"   -> [t |-> "int", txt |-> IntPool[i].txt]
     [] tv.ty = "float" -> [t |-> "float", txt |-> FloatPool[i].txt, as |-> FloatAs(tv, be, store)]
-    [] tv.ty = "str"   -> [t |-> "str", txt |-> StrPool[i].txt]
+    [] tv.ty = "str"   -> [t |-> "str", txt |-> StrPool[i].txt, pad |-> padlen]
 
 UnitSeen(p, be, units) ==
   IF be = "dip" THEN p.unit
   ELSE IF be \in DataFmt /\ units THEN p.unit
   ELSE ""                                                \* languages and the shell export bare values
 
+MaxStrLen(p) == CHOOSE n \in {StrPool[p.elems[k]].len : k \in 1..Len(p.elems)} :
+                   \A k \in 1..Len(p.elems) : StrPool[p.elems[k]].len <= n
+
 Obs(p, rel, be, opt) ==
   LET isdef == Dotted(rel) \in opt.define
       store == Store(be, isdef)
-      tv == TvOf(p) IN
+      tv == TvOf(p)
+      padlen == IF be = "fortran" /\ p.ty = "str" THEN MaxStrLen(p) ELSE 0 IN
   [ sym   |-> Symbol(rel, be, opt.rename),
     key   |-> SymKey(rel, be, opt.rename),
     rel   |-> Dotted(rel),
@@ -298,7 +307,7 @@ Obs(p, rel, be, opt) ==
     tclass |-> TClass(tv, be, store),
     shape |-> p.shape,
     unit  |-> UnitSeen(p, be, opt.units),
-    elems |-> [k \in 1..Count(p.shape) |-> [idx |-> Unflat(p.shape, k), v |-> ValueSeen(tv, p.elems[k], be, store)]] ]
+    elems |-> [k \in 1..Count(p.shape) |-> [idx |-> Unflat(p.shape, k), v |-> ValueSeen(tv, p.elems[k], be, store, padlen)]] ]
 
 ---------------------------------------------------------------------------
 (* Feature predicates of a parameter in a scenario (the vocabulary of the  *)
